@@ -117,6 +117,7 @@ def code_lines(path, first, last):
     res = []
     in_block = False
     in_tests = False
+    in_hook = False
     for no, text in enumerate(src, 1):
         t = text.strip()
         if re.match(r"#\[cfg\(test\)\]", t) and no < len(src) and re.match(r"\s*(pub )?mod ", src[no]):
@@ -132,7 +133,14 @@ def code_lines(path, first, last):
             continue
         if not t or t.startswith("//") or t.startswith("#[") or t.startswith("*") or t.startswith("/*"):
             continue
-        if "verif_hooks" in t or "cfg(feature" in t:
+        if "cfg(feature" in t:
+            in_hook = True
+            continue
+        if in_hook:
+            if t.endswith(";") or t.endswith("}"):
+                in_hook = False
+            continue
+        if "verif_hooks" in t:
             continue
         res.append((no, text))
     return res
@@ -144,15 +152,31 @@ def gen(args):
     props = args.props.split(",") if args.props else sorted(ranges)
     mutants = []
     seen = set()
+    files_of = {}
+    for l in open(os.path.join(ROOT, "properties.jsonl")):
+        pp = json.loads(l)
+        files_of[pp["id"]] = set(pp["anchors"].get("files", []))
+    prev = os.path.join(OUT, "results.json")
+    if os.path.exists(prev):
+        for r in json.load(open(prev)).values():
+            seen.add((r["file"], r["old"], r["new"]))
     for pid in props:
         cands = []
         for f, a, b in ranges.get(pid, []):
             for no, text in code_lines(f, a, b):
                 code = text.split("//")[0]
+                # string literals and inline /* */ comments are masked: edits of message texts
+                # and comments are equivalent mutants by construction
+                masked = re.sub(r'"(?:[^"\\]|\\.)*"', lambda m: "\x00" * len(m.group(0)), code)
+                masked = re.sub(r"/\*.*?\*/", lambda m: "\x00" * len(m.group(0)), masked)
+                if re.search(r"\b(panic|assert|assert_eq|unreachable|write|format)!\(", masked) is None and '\x00' in masked and masked.strip().startswith('\x00'):
+                    continue        # continuation line of a message
                 for name, pat, rep in OPS:
-                    if re.search(pat, code):
-                        new = re.sub(pat, rep, code, count=1) + text[len(code):]
-                        if new != text:
+                    mm = re.search(pat, masked)
+                    if mm:
+                        new_part = re.sub(pat, rep, masked[mm.start():mm.end()], count=1)
+                        new = code[:mm.start()] + new_part + code[mm.end():] + text[len(code):]
+                        if new != text and "\x00" not in new_part:
                             cands.append((f, no, name, text, new))
         rng.shuffle(cands)
         # spread over operators and lines: at most one mutant per (file, line), round-robin over ops
@@ -166,7 +190,7 @@ def gen(args):
                 while byop[op]:
                     c = byop[op].pop()
                     key = (c[0], c[1])
-                    if key in used_lines or (c[0], c[1], c[4]) in seen:
+                    if key in used_lines or (c[0], c[3], c[4]) in seen:
                         continue
                     used_lines.add(key)
                     picked.append(c)
@@ -174,11 +198,18 @@ def gen(args):
                 if len(picked) >= args.per_prop:
                     break
         for k, (f, no, name, old, new) in enumerate(picked):
-            seen.add((f, no, new))
-            mutants.append({"id": f"{pid}-x{k:03d}", "property": pid, "file": f, "line": no,
-                            "operator": name, "old": old, "new": new})
+            seen.add((f, old, new))
+            mutants.append({"id": f"{pid}-{args.tag}{k:03d}", "property": pid, "file": f, "line": no,
+                            "operator": name, "old": old, "new": new,
+                            "also": [q for q in sorted(files_of) if q != pid and f in files_of[q]
+                                     and q not in ("C18", "C20")][:4]})
         print(f"{pid}: {len(cands)} candidate edits in {len(ranges.get(pid, []))} anchored ranges, picked {len(picked)}")
     os.makedirs(OUT, exist_ok=True)
+    mp = os.path.join(OUT, "mutants.json")
+    if os.path.exists(mp):
+        old_m = json.load(open(mp))["mutants"]
+        ids = {m["id"] for m in mutants}
+        mutants = [m for m in old_m if m["id"] not in ids] + mutants
     json.dump({"repo_head": sh(["git", "-C", "/repo", "rev-parse", "--short", "HEAD"])[1].strip(),
                "seed": args.seed, "mutants": mutants}, open(os.path.join(OUT, "mutants.json"), "w"), indent=1)
 
@@ -228,6 +259,12 @@ def run_one(wt, m):
         v = "caught (no-failing-input-found)" if nf else "caught (concrete replay)"
     elif rc == 0:
         v = "SURVIVED"
+        for other in m.get("also", []):
+            rc2, out2, _ = sh(["python3", "verif.py", "check", other, "--tier", "quick"], cwd=ROOT,
+                              env=dict(ENV, EASYML_REPO=wt), timeout=3600)
+            if rc2 == 1 and any(l.startswith("VIOLATION") for l in out2.split("\n")):
+                v = "reported by " + other + " (not by the anchoring property)"
+                break
     else:
         v = f"machinery-error rc={rc}: " + (err or out)[-300:]
     return {"verdict": v, "wall": round(time.time() - t0, 1)}
@@ -275,18 +312,19 @@ def table(args):
              "A measurement, not a check: one-token edits in the code each property is anchored in; a mutant counts",
              "only if it compiles and the existing test suite (`cargo test --lib --tests`) still passes with it;",
              "the quick check of the anchoring property is then run against a scratch worktree holding it.\n",
-             "| property | generated | do not compile | killed by existing tests | reach the check | reported (concrete) | reported (no input) | survived | of which triaged equivalent |",
-             "|---|---|---|---|---|---|---|---|---|"]
-    tot = [0] * 8
+             "| property | generated | do not compile | killed by existing tests | reach the check | reported (concrete) | reported (no input) | reported by another property's check | survived | of which triaged equivalent or reported by the property they concern |",
+             "|---|---|---|---|---|---|---|---|---|---|"]
+    tot = [0] * 9
     for pid in props:
         rs = [r for r in results.values() if r["property"] == pid]
         nc = sum(r["verdict"] == "does-not-compile" for r in rs)
         kt = sum(r["verdict"] == "killed-by-existing-tests" for r in rs)
         cc = sum(r["verdict"] == "caught (concrete replay)" for r in rs)
         cn = sum(r["verdict"] == "caught (no-failing-input-found)" for r in rs)
+        co = sum(r["verdict"].startswith("reported by") for r in rs)
         sv = [r for r in rs if r["verdict"] == "SURVIVED"]
-        eq = sum(1 for r in sv if triage.get(r["id"], {}).get("class") == "equivalent")
-        row = [len(rs), nc, kt, cc + cn + len(sv), cc, cn, len(sv), eq]
+        eq = sum(1 for r in sv if triage.get(r["id"], {}).get("class") in ("equivalent", "caught-by-other-property"))
+        row = [len(rs), nc, kt, cc + cn + co + len(sv), cc, cn, co, len(sv), eq]
         tot = [a + b for a, b in zip(tot, row)]
         lines.append(f"| {pid} | " + " | ".join(str(x) for x in row) + " |")
     lines.append("| **all** | " + " | ".join(str(x) for x in tot) + " |")
@@ -310,7 +348,7 @@ def table(args):
 if __name__ == "__main__":
     ap = argparse.ArgumentParser()
     sub = ap.add_subparsers(dest="cmd", required=True)
-    g = sub.add_parser("gen"); g.add_argument("--per-prop", type=int, default=12); g.add_argument("--seed", type=int, default=1); g.add_argument("--props", default="")
+    g = sub.add_parser("gen"); g.add_argument("--per-prop", type=int, default=12); g.add_argument("--seed", type=int, default=1); g.add_argument("--props", default=""); g.add_argument("--tag", default="x")
     r = sub.add_parser("run"); r.add_argument("--workers", type=int, default=4); r.add_argument("--props", default=""); r.add_argument("--redo", action="store_true")
     t = sub.add_parser("table")
     a = ap.parse_args()
